@@ -67,8 +67,9 @@ def run_cli(ctx, cli, cases):
         try:
             ctx.harness(cli, cases=cases, n=0, extra="skip=%d,progress=%s" % (skip, progress), name="cli(from %d)" % skip)
             return
-        except vcheck.Infra as e:
-            # the harness process died: a panic nobody could recover (e.g. on a fetch goroutine)
+        except vcheck.Crashed as e:
+            # the harness process died in pprof code: a panic nobody could recover (e.g. on a fetch goroutine);
+            # a death in the harness's own code is vcheck.Infra and is not caught here
             if not os.path.exists(progress):
                 raise
             txt = open(progress).read().split("\n", 1)
